@@ -280,7 +280,16 @@ class Connection(object):
             self._local_objects.add(id_pack, obj)
             return consts.LABEL_REMOTE_REF, id_pack
 
-    def _unbox(self, package):  # boxing
+    def _pin_local_refs(self, package, pinned):  # boxing
+        """resolve every reference to a local object in *package* up front"""
+        label, value = package
+        if label == consts.LABEL_TUPLE:
+            for item in value:
+                self._pin_local_refs(item, pinned)
+        elif label == consts.LABEL_LOCAL_REF:
+            pinned[value] = self._local_objects[value]
+
+    def _unbox(self, package, _pinned=None):  # boxing
         """recreate a local object representation of the remote object: if the
         object is passed by value, just return it; if the object is passed by
         reference, create a netref to it"""
@@ -288,8 +297,16 @@ class Connection(object):
         if label == consts.LABEL_VALUE:
             return value
         if label == consts.LABEL_TUPLE:
-            return tuple(self._unbox(item) for item in value)
+            if _pinned is None:
+                # creating a proxy (below) may serve nested requests while it inspects the remote
+                # class - including the peer's release of objects this very message refers to -
+                # so references to local objects are resolved before anything else
+                _pinned = {}
+                self._pin_local_refs(package, _pinned)
+            return tuple(self._unbox(item, _pinned) for item in value)
         if label == consts.LABEL_LOCAL_REF:
+            if _pinned is not None:
+                return _pinned[value]
             return self._local_objects[value]
         if label == consts.LABEL_REMOTE_REF:
             id_pack = (str(value[0]), value[1], value[2])  # so value is a id_pack
